@@ -165,9 +165,10 @@ class SocketWrapper:
                 break
             if chunk_length != 0:
                 chunk = instream.read(chunk_length)
-                if len(chunk) != chunk_length:
-                    # premature end of chunk bytes
-                    partial = length_bytes + chunk
+                term = instream.readline()
+                if len(chunk) != chunk_length or term[-2:] != b"\r\n":
+                    # premature end of chunk bytes or chunk terminator
+                    partial = length_bytes + chunk + term
                     break
                 try:
                     if self._encoding & ENCODE_GZIP:
@@ -180,10 +181,9 @@ class SocketWrapper:
                     self.logger.error(f"Error decompressing data: {err}")
                     # parser will discard data
                 chunks += chunk
-
-            instream.readline()
-            if chunk_length == 0:
+            else:
                 # final chunk
+                instream.readline()
                 break
 
         return chunks, partial
